@@ -1,3 +1,5 @@
 import GoImap.Props.C15
 #print axioms GoImap.C15.less_excludes_contains
 #print axioms GoImap.C15.contains_star_iff
+#print axioms GoImap.C15.merge_union
+#print axioms GoImap.C15.merge_fail
